@@ -39,15 +39,23 @@ def _strategy(draw):
     btypes = {t: (draw(st.sampled_from(["BA", "BB", "BC"])) if opls else t) for t in types}
     comb = draw(st.sampled_from([1, 2, 3]))
     atomtypes = []
+
+    def nbval():
+        # C6/C12 tables span many orders of magnitude (a C12 of 3.4e-9 is an ordinary value)
+        val = draw(st.integers(1, 9999)) / 1000.0
+        if comb == 1 and draw(st.booleans()):
+            val = float(f"{val}e-{draw(st.integers(1, 9))}")
+        return val
+
     for t in types:
         atomtypes.append({"name": t, "btype": btypes[t], "mass": draw(st.sampled_from([12.0, 36.0, 72.0])),
-                          "nb1": draw(st.integers(1, 9999)) / 1000.0, "nb2": draw(st.integers(1, 9999)) / 1000.0})
+                          "nb1": nbval(), "nb2": nbval()})
     keyspace = sorted(set(btypes.values()))
     nonbond = []
     for a, b in itertools.combinations_with_replacement(types, 2):
         if draw(st.integers(0, 3)) == 0:
             pair = [a, b] if draw(st.booleans()) else [b, a]
-            nonbond.append(pair + [draw(st.integers(1, 9999)) / 1000.0, draw(st.integers(1, 9999)) / 1000.0])
+            nonbond.append(pair + [nbval(), nbval()])
     defines = {}
     if draw(st.booleans()):
         defines["gb_1"] = [_num(draw), _num(draw)]
